@@ -727,9 +727,23 @@ func (s *AbsfsNFS) RenameWithContext(ctx context.Context, oldDir *NFSNode, oldNa
 		return fmt.Errorf("rename: failed to sanitize new path: %w", err)
 	}
 
+	// A directory takes everything below it along: entries cached under the old
+	// name (and listings of its subdirectories) describe paths that no longer
+	// exist once it has moved. Find out before the rename what is being moved.
+	movesDir := false
+	if info, statErr := s.fs.Lstat(oldPath); statErr == nil {
+		movesDir = info.IsDir()
+	}
+
 	err = s.fs.Rename(oldPath, newPath)
 	if err != nil {
 		return fmt.Errorf("rename: failed to rename %s to %s: %w", oldPath, newPath, err)
+	}
+	if movesDir {
+		s.attrCache.Clear()
+		if s.dirCache != nil {
+			s.dirCache.Clear()
+		}
 	}
 	// Invalidate caches and negative cache entries
 	s.attrCache.Invalidate(oldPath)
